@@ -318,7 +318,11 @@ func pairScriptObs(a, b object.Object) string {
 	if !ok || len(l.Value()) != 13 {
 		return "SCRIPTERR shape"
 	}
-	it := l.Value()
+	return pairLine(l.Value())
+}
+
+// pairLine turns the 13 answers of one block of pair operators into the line shape of pairAPI
+func pairLine(it []object.Object) string {
 	c := make([]string, len(it))
 	for i := range it {
 		c[i] = scriptChar(it[i])
@@ -641,7 +645,7 @@ func main() {
 		if bad {
 			continue
 		}
-		need := map[string]int{"P": 2, "p": 2, "C": 2, "c": 2, "S": 1, "s": 1, "U": 1, "Y": 1}[kind]
+		need := map[string]int{"P": 2, "p": 2, "C": 2, "c": 2, "S": 1, "s": 1, "U": 1, "Y": 1, "k": 2, "e": 2}[kind]
 		if need == 0 || len(vals) != need {
 			fmt.Fprintln(out, "BADCASE arity")
 			continue
@@ -655,6 +659,10 @@ func main() {
 			fmt.Fprintln(out, containsAPI(vals[0], vals[1]))
 		case "c":
 			fmt.Fprintln(out, containsScriptObs(vals[0], vals[1]))
+		case "k":
+			fmt.Fprintln(out, spelledContainsObs(vals[0], vals[1]))
+		case "e":
+			fmt.Fprintln(out, spelledPairObs(vals[0], vals[1]))
 		case "S":
 			fmt.Fprintln(out, sortedAPI(vals[0]))
 		case "s":
